@@ -511,6 +511,17 @@ def h_correlate(I, args, kw, st, n):
     return Arr([(m, ac - vc + 1)], sum_over(k, vc, prod))
 
 
+def h_convolve(I, args, kw, st, n):
+    """convolution, 'valid' part: out[m] = sum_k a[m + k] * v[K - 1 - k] (the kernel is reversed with respect to np.correlate)."""
+    A, Vv = as_arr(args[0]), as_arr(args[1])
+    mode = kw.get("mode", args[2] if len(args) > 2 else "full")
+    if A is None or Vv is None or A.ndim != 1 or Vv.ndim != 1 or mode != "valid": return Opaque("convolution (only mode='valid' of 1-D operands is modelled)")
+    (av, ac), = A.axes; (vv, vc), = Vv.axes
+    m = fresh("m"); k = fresh("k")
+    prod = lift2("*", subst_val(A.body, {av: X.var(m) + X.var(k)}), subst_val(Vv.body, {vv: vc - 1 - X.var(k)}))
+    return Arr([(m, ac - vc + 1)], sum_over(k, vc, prod))
+
+
 def h_sliding(I, args, kw, st, n):
     A = as_arr(args[0]); W = to_x(args[1] if len(args) > 1 else kw.get("window_shape"))
     if A is None or A.ndim != 1 or W is None: return Opaque("sliding_window_view")
@@ -520,6 +531,9 @@ def h_sliding(I, args, kw, st, n):
 
 
 def h_einsum(I, args, kw, st, n):
+    for i_ in (1, 2):
+        if len(args) > i_ and isinstance(args[i_], PV):
+            return pv_apply(lambda x, i_=i_: x if is_opaque(x) else h_einsum(I, args[:i_] + [x] + args[i_ + 1:], kw, st, n), args[i_])
     if not args or args[0] != "ij,ij->i": return Opaque("einsum signature")
     A, B = as_arr(args[1]), as_arr(args[2])
     if A is None or B is None or A.ndim != 2 or B.ndim != 2: return Opaque("einsum operands")
@@ -720,6 +734,31 @@ def h_isclose(I, a, k, st, n):
     return _ew2(f, a[0], a[1], st)
 
 
+def h_allclose(I, a, k, st, n):
+    """np.allclose: a tolerance test - it does NOT establish equality of its operands, so nothing is learnt on the true branch."""
+    text = " ".join(ast.unparse(n).split())[:120]
+    c = Cond.get(("allclose", text), text)
+    return PV(c, True, False)
+
+
+def h_broadcast_to(I, a, k, st, n):
+    A = as_arr(a[0]) if isinstance(a[0], (Arr, ArrParam, LocalArr)) else None
+    shape = a[1] if len(a) > 1 else k.get("shape")
+    if isinstance(shape, X): shape = (shape,)
+    if A is None or not isinstance(shape, (tuple, list)) or any(to_x(c) is None for c in shape): return Opaque("np.broadcast_to")
+    shape = [to_x(c) for c in shape]
+    if A.ndim > len(shape): return Mismatch("broadcast_to a lower rank")
+    axes = []; sub = {}
+    lead = len(shape) - A.ndim
+    for i, cnt in enumerate(shape):
+        if i < lead: axes.append((fresh("b"), cnt)); continue
+        v, c0 = A.axes[i - lead]
+        if c0.eq(cnt): axes.append((v, cnt))
+        elif c0.as_int() == 1: axes.append((fresh("b"), cnt)); sub[v] = X.const(0)
+        else: return Mismatch(f"operands could not be broadcast together: {c0!r} vs {cnt!r}")
+    return Arr(axes, subst_val(A.body, sub) if sub else A.body)
+
+
 def _binary(sym):
     def h(I, a, k, st, n):
         if len(a) != 2: return Opaque(f"numpy ufunc {sym} arguments")
@@ -824,6 +863,10 @@ _reg("numpy.clip", h_clip)
 _reg("numpy.power", h_pow)
 _reg("numpy.pad", h_pad)
 _reg("numpy.correlate", h_correlate)
+_reg("numpy.allclose", h_allclose)
+_reg("numpy.broadcast_to", h_broadcast_to)
+_reg("scipy.signal.correlate", lambda I, a, kw, st, n: h_correlate(I, a, dict({"mode": a[2] if len(a) > 2 else "full"}, **kw), st, n))
+for _nm in ("numpy.convolve", "scipy.signal.convolve", "scipy.signal.fftconvolve", "scipy.signal.oaconvolve"): _reg(_nm, h_convolve)
 _reg("numpy.lib.stride_tricks.sliding_window_view", h_sliding)
 _reg("numpy.einsum", h_einsum)
 _reg("numpy.vecdot numpy.linalg.vecdot", h_vecdot)
@@ -916,6 +959,9 @@ def call_method(I, o, name, args, kw, st, n):
             cnd = Cond.get((name, repr(k)), f"{name}({A.body!r})"[:120])
             setattr(cnd, name + "_of", A)
             return PV(cnd, True, False)
+        if name in ("ravel", "flatten"):
+            A = _arr(o, st) if isinstance(o, LocalArr) else as_arr(o)
+            if A is not None and not is_opaque(A) and A.ndim == 1: return A
         if name in ("any", "all", "min", "max", "tolist", "ravel", "flatten"):
             return Opaque(f"array.{name}")
         return Opaque(f"array method {name}")
